@@ -394,13 +394,13 @@ pub fn run(ctx: &Ctx) -> PropResult {
         res.inconclusive = Some(e);
         return res;
     }
-    let max_len = if ctx.tiny { 2 } else if ctx.thorough { 5 } else { 4 };
+    let max_len = if ctx.tiny { 2 } else if ctx.thorough { 6 } else { 4 };
     let max_n = if ctx.tiny { 5 } else { 16 };
     let a = ALPHABET.len();
     // shards: one per 2-symbol prefix, plus one for the strings of length < 2
     let n_ex = a * a + 1;
     let rand_shards = if ctx.tiny { 4usize } else { 64usize };
-    let rand_cases = if ctx.tiny { 25 } else { ctx.scaled(if ctx.thorough { 40_000 } else { 2_500 }) };
+    let rand_cases = if ctx.tiny { 25 } else { ctx.scaled(if ctx.thorough { 100_000 } else { 8_000 }) };
     let longs = if ctx.tiny { 0 } else { long_inputs().len() };
     let mut all: Vec<&'static IfaceDesc> = vec![mini, ctx.iface("pzoo")];
     all.extend(ctx.random_ifaces());
@@ -413,6 +413,11 @@ pub fn run(ctx: &Ctx) -> PropResult {
         total,
         ctx.threads,
         |i| {
+            if let Some((k, of)) = ctx.shard {
+                if i % of != k {
+                    return Acc::default();
+                }
+            }
             if i < a * a {
                 exhaust_shard(mini, &[ALPHABET[i / a], ALPHABET[i % a]], max_len, max_n)
             }
@@ -494,7 +499,7 @@ pub fn run(ctx: &Ctx) -> PropResult {
         "handlers do not panic".into(),
         "the class alphabet represents the distinctions the grammar makes; bytes outside it are reached only by the random and long layers".into(),
     ];
-    if calls == 0 || errors == 0 {
+    if (calls == 0 || errors == 0) && ctx.shard.is_none() {
         res.inconclusive = Some("observed no handler calls or no errors: the workload did not reach the library".into());
     }
     res
